@@ -113,7 +113,9 @@ fn make_case(rng: &mut Rng, mode: Mode) -> Case {
         }
     }
     // identical spelling and layout for both twins
-    let lay = Layout { trailing_newline: rng.chance(1, 2), filler_pct: 15, pack_pct: if rng.chance(1, 3) { 25 } else { 0 }, comments: false };
+    // the twins differ textually in their trigger instructions (flag immediates, int 3 / cld): only the -i mode, whose
+    // twin is the same text, packs several instructions on a line (the text of a line is echoed in print headers)
+    let lay = Layout { trailing_newline: rng.chance(1, 2), filler_pct: 15, pack_pct: if mode == Mode::Flag && rng.chance(1, 2) { 25 } else { 0 }, comments: false };
     let spell_seed = rng.fork(77);
     let stepped_r = stepped.render(&mut Spell { rng: Some(spell_seed.clone()), upper_prob: 0, radix_mix: false, ws_mix: false, syn_mix: false }, &lay);
     let plain_r = plain.render(&mut Spell { rng: Some(spell_seed), upper_prob: 0, radix_mix: false, ws_mix: false, syn_mix: false }, &lay);
